@@ -127,7 +127,46 @@ func genFormula(s *Stream, cfg genCfg) string {
 			parts = append(parts, g.expr(g.s.Intn(tAny+1), 0))
 		}
 	}
-	return strings.Join(parts, ", ")
+	text := strings.Join(parts, ", ")
+	if s.Intn(5) == 0 {
+		text = decorateWS(s, text)
+	}
+	return text
+}
+
+// every kind of white space and line break the language knows, as a caller who pastes
+// text from elsewhere or writes a formula over several lines would supply it
+var wsExotic = []string{"\t", "\n", "\r\n", "\u00a0", "\u200b", "\ufeff", "\u3000", "\u2003", "\u1680", "\u202f", "\u205f", "\v", "\f", " \n  ", "\u2028", "\u2029", "\u0085", "\u2000\u200a"}
+
+// decorateWS replaces some of the blanks between tokens (never inside a string literal)
+// by other white space; the formula stays the same formula.
+func decorateWS(s *Stream, text string) string {
+	var b strings.Builder
+	quote := byte(0)
+	for i := 0; i < len(text); i++ {
+		c := text[i]
+		if quote != 0 {
+			b.WriteByte(c)
+			if c == '\\' && i+1 < len(text) {
+				i++
+				b.WriteByte(text[i])
+			} else if c == quote {
+				quote = 0
+			}
+			continue
+		}
+		if c == '\'' || c == '"' {
+			quote = c
+			b.WriteByte(c)
+			continue
+		}
+		if c == ' ' && s.Intn(3) == 0 {
+			b.WriteString(wsExotic[s.Intn(len(wsExotic))])
+			continue
+		}
+		b.WriteByte(c)
+	}
+	return b.String()
 }
 
 func (g *gen) numLit() string {
@@ -384,6 +423,9 @@ func (g *gen) arr(d int, leaf bool) string {
 func (g *gen) tim(d int, leaf bool) string {
 	if leaf {
 		if g.s.Bool(1, 2) {
+			if g.s.Intn(6) == 0 {
+				return "tz" // the zero time.Time, as a host hands over a field that was never set
+			}
 			return "t1"
 		}
 		return fmt.Sprintf("date(%d, %d, %d)", 1900+g.s.Intn(300), g.s.Intn(14), g.s.Intn(33))
@@ -408,7 +450,8 @@ func (g *gen) tim(d int, leaf bool) string {
 
 func (g *gen) any(d int, leaf bool) string {
 	if leaf {
-		return g.pick([]string{"Max", "Len", "null", "z1", "this.s1", "o1", "o1.c", "nope", "nope.x", "l1", "st1", "1", "'s'", "true", "$a", "ctx", "m1"})
+		return g.pick([]string{"Max", "Len", "null", "z1", "this.s1", "o1", "o1.c", "nope", "nope.x", "l1", "st1", "1", "'s'", "true", "$a", "ctx", "m1",
+			"cv.name", "cv.Name", "cv.NAME", "cv.naME", "cv", "tz"})
 	}
 	e := func(t int) string { return g.expr(t, d+1) }
 	switch g.s.Intn(14) {
@@ -578,6 +621,8 @@ func (d dataSpec) build(log *hostLog, loc *time.Location) map[string]interface{}
 		"fz": float64(0), "fnz": math.Copysign(0, -1),
 		"名前": d.num(2), "x\u0662": d.num(3), "cafe\u0301": strs[(d.Nums[2]+1000)%len(strs)],
 		"z1": nil,
+		"tz": time.Time{},
+		"cv": map[string]interface{}{"Name": "first", "NAME": "second", "nAmE": d.num(3), "namE": nil}, // keys that differ only in case
 		"t1": time.Unix(int64(d.Nums[0])*86400*30+int64(d.Nums[1])*977, int64(d.Nums[2]+1000)*1000).In(loc),
 		"o1": map[string]interface{}{
 			"a": d.num(4),
